@@ -194,7 +194,7 @@ impl Property for C02 {
     fn rule(&self) -> String {
         "generated directory trees (<= 4 levels, <= 24 entries, pattern-like / hidden / non-ASCII \
          names, links — leaves by default, followed in a quarter of the walks —, regular files whose names are not valid UTF-8) x base spellings (absolute, trailing `/`, trailing `/.`, relative, \
-         a sub-directory, the parent) x globs whose literals are names of the tree, in four shapes \
+         a sub-directory, the parent, and — sequentially — `.` / `./` with the tree as working directory) x globs whose literals are names of the tree, in four shapes \
          (no prefix, invariant prefix of existing directories incl. `{a}` / `<a/:1>` spellings, \
          rooted by the absolute scratch path, `.`/`..` prefixes); one evaluation = one walk \
          compared as a multiset with the filtered reference traversal, plus pure-path component \
@@ -219,7 +219,7 @@ impl Property for C02 {
         256
     }
     fn required_counters(&self) -> Vec<&'static str> {
-        vec!["walks", "trees_with_links", "pruned_links", "shape_plain", "shape_prefixed", "shape_rooted", "shape_dots", "pruned_directories", "walk_root_expected", "base_noncanonical", "component_program_checks", "read_target_walks", "caseless_component_other_casing"]
+        vec!["walks", "trees_with_links", "pruned_links", "shape_plain", "shape_prefixed", "shape_rooted", "shape_dots", "pruned_directories", "walk_root_expected", "base_noncanonical", "component_program_checks", "read_target_walks", "caseless_component_other_casing", "walks_from_current_directory"]
     }
     fn decode(&self, t: &mut Tape) -> Case {
         let tree = gen_tree(t, &TreeCfg { links: true, non_utf8: true, ..TreeCfg::default() });
@@ -321,6 +321,29 @@ impl Property for C02 {
         }
         out
     }
+    fn extra(&self, tier: Tier, st: &mut Stats) -> Result<(), (Case, String)> {
+        // walks from the current directory (`.` and `./`): sequential, because the working
+        // directory is process-wide
+        let n = match tier {
+            Tier::Quick => 300u64,
+            Tier::Thorough => 4000,
+        };
+        for k in 0..n {
+            let bytes = fixed_tape(k, self.tape_len());
+            let mut t = Tape::new(&bytes);
+            let mut case = self.decode(&mut t);
+            if matches!(case.base, Base::Sub(_) | Base::Parent) {
+                let b2 = fixed_tape(k + 1_000_000, 64);
+                let mut t2 = Tape::new(&b2);
+                case.shape = gen_shape(&mut t2, &case.tree, &Base::Abs);
+            }
+            case.base = Base::Cwd(k % 2 == 1);
+            if let Err(m) = self.check(&case, st) {
+                return Err((case, m));
+            }
+        }
+        Ok(())
+    }
     fn check(&self, case: &Case, st: &mut Stats) -> CheckResult {
         let s = match Scratch::create(&case.tree) {
             Ok(s) => s,
@@ -334,6 +357,13 @@ impl Property for C02 {
         if !base_abs.is_dir() {
             st.count("base_missing");
             return Ok(());
+        }
+        let _cwd = enter_cwd(&case.base, &s);
+        if matches!(case.base, Base::Cwd(_)) {
+            if _cwd.is_none() {
+                return Ok(());
+            }
+            st.count("walks_from_current_directory");
         }
         let root_abs = s.root.to_string_lossy().to_string();
         let expr = full_glob(&case.shape, &case.glob, &root_abs);
